@@ -48,6 +48,20 @@ CHECKS.update({
                   "the fed components (mux counted under its selected input), union of warnings; without rails both tables are identical.", "DESIGN.md 7 (C08)"),
 })
 
+CHECKS["C09"] = _solve("The Warnings cell of every recorded row must name exactly the applicable limit keys whose reported quantity lies outside [min, max] (magnitudes, tp signed, strict), "
+                       "be empty for a configured component that does not list the phase, and roll up to Subsystem / System total; limits are random dictionaries and, in a second pass, bounds "
+                       "placed 1 ulp below / at / 1 ulp above the solved values.", "DESIGN.md 7 (C09)")
+
+CHECKS["C03"] = dict(
+    technique="TLA+ state machine of the solver loop (Solver.tla, TLC) + sweep-level trace validation (TraceSolver.tla) + black-box relations (TraceSolve.tla)",
+    text="Solver.tla models the fixed-point loop (sweep / returned / RuntimeError / ValueError) and TLC checks ReturnOnlyConverged, Terminates, NoConvOnlyLate for maxiter 0..6. "
+         "The real loop is recorded sweep by sweep through run-time wrappers of System._solve/_fwd_prop/_back_prop; TLC classifies every sweep with the exact stopping rule "
+         "(numpy.allclose stated over exact decimals) and requires the recorded run to be a behaviour of Solver.tla ending the observed way (never an earlier iterate, never later, "
+         "returned vectors = last pre-sweep iterate = table). Black-box: finite, every law reproduced within the requested tolerance, passive elements neither invert nor amplify, only "
+         "RuntimeError/ValueError; completeness on designed steady states with modest drops; overloaded systems raise or return such a state.",
+    note="completeness is decided for designed steady states (drops <= 6 % per element, <= 25 % per path) only; wrappers depend on the private method names (degrade to black-box if absent)",
+    design="DESIGN.md 7 (C03)")
+
 NOT_BUILT = "check not built yet in this round (framework under construction; see DESIGN.md section 13)"
 
 
